@@ -101,7 +101,7 @@ package cache
 //@ spec infoSameExcept(fs *ReadOnlyFS, name string) := forall(k, string, implies(k != name, in(k, dom(fs.cacheInfo)) == old(in(k, dom(fs.cacheInfo))) && fs.cacheInfo[k] == old(fs.cacheInfo[k])))
 
 //@ func (fs *ReadOnlyFS) Stat(name string) (info hackpadfs.FileInfo, err error)
-//@   props C10 C14 C05
+//@   props C10 C14 C05 C04
 //@   requires roOK(fs)
 //@   modifies world(), mapOf(fs.cacheInfo)
 //@   ensures "known" [C10] implies(old(known(fs, name)), info == old(fs.cacheInfo[name]) && err == nil && world() == old(world()) && infoSame(fs))
@@ -110,6 +110,7 @@ package cache
 //@                     info == old(retW("hackpadfs.(File).Stat", 0, srcOpenW(world(), fs, name), srcOpenF(world(), fs, name))) || err != nil)
 //@   ensures "stat-error" [C14] implies(!old(known(fs, name)) && old(srcOpenErr(world(), fs, name)) == nil && old(retW("hackpadfs.(File).Stat", 1, srcOpenW(world(), fs, name), srcOpenF(world(), fs, name))) != nil,
 //@                     info == nil && err != nil && infoSame(fs))
+//@   ensures "gate" [C04 C05] implies(!VP(name) && !old(known(fs, name)), info == nil && errIs(err, hackpadfs.ErrInvalid) && world() == old(world()) && infoSame(fs))
 //@   ensures "remembered" [C10] implies(err == nil, known(fs, name) && fs.cacheInfo[name] == info && infoSameExcept(fs, name) && info != nil)
 //@   ensures "not-remembered" implies(err != nil, infoSame(fs) && info == nil)
 //@   nopanic
@@ -122,7 +123,7 @@ package cache
 //@ spec infoDir(w int, info hackpadfs.FileInfo) := retW("hackpadfs.(FileInfo).IsDir", 0, w, info)
 
 //@ func (fs *ReadOnlyFS) Open(name string) (f hackpadfs.File, err error)
-//@   props C10 C11 C16 C17 C14
+//@   props C10 C11 C16 C17 C14 C04 C05
 //@   requires roOK(fs)
 //@   modifies world(), mapOf(fs.cacheInfo), mapOf(fs.cached)
 //@   ensures "stat-error" implies(!old(known(fs, name)) && old(srcOpenErr(world(), fs, name)) != nil, f == nil && err == old(srcOpenErr(world(), fs, name)) && completeSame(fs))
@@ -137,5 +138,6 @@ package cache
 //@                     f == nil && err != nil && !complete(fs, name))
 //@   ensures "not-retained" [C10] implies(old(known(fs, name)) && !old(infoDir(world(), knownInfo(fs, name))) && !old(complete(fs, name)) && old(srcOpenErr(world(), fs, name)) == nil &&
 //@                     !old(apply(fs.options.RetainData, name, knownInfo(fs, name))), f == old(srcOpenF(world(), fs, name)) && err == nil && completeSame(fs))
+//@   ensures "gate" [C04 C05] implies(!VP(name) && !old(known(fs, name)), f == nil && errIs(err, hackpadfs.ErrInvalid) && world() == old(world()) && completeSame(fs) && infoSame(fs))
 //@   ensures "monotone" [C11] completeGrowsBy(fs, name)
 //@   nopanic
